@@ -36,8 +36,30 @@ type killResult struct {
 }
 
 // crashCheck applies C20 to the tree left behind by a killed run.
-func crashCheck(exp *Expect, before, after Snapshot, where string) []Finding {
+func crashCheck(exp *Expect, before, after Snapshot, ops []Op) []Finding {
 	var fs []Finding
+	// the window is named after the operations on the affected file (p or p.bak) only, so that
+	// the signature does not depend on how other tasks happened to interleave
+	window := func(p string) string {
+		last, next := "start", "unrelated-call"
+		for _, o := range ops {
+			hit := false
+			for _, w := range strings.Fields(o.Text) {
+				if w == p || w == p+".bak" {
+					hit = true
+				}
+			}
+			if !hit {
+				continue
+			}
+			if o.Complete {
+				last = o.Kind
+			} else {
+				next = o.Kind
+			}
+		}
+		return "after-" + last + "-before-" + next
+	}
 	inplaceOut := map[string][]byte{}
 	dst := map[string]bool{}
 	for p, ef := range exp.Files {
@@ -73,15 +95,15 @@ func crashCheck(exp *Expect, before, after Snapshot, where string) []Finding {
 			if bak, okb := after[p+".bak"]; okb {
 				bakObs = fmt.Sprintf("%d B", len(bak.Data))
 			}
-			fs = append(fs, Finding{Signature: "crash:original-nowhere:" + where,
+			fs = append(fs, Finding{Signature: "crash:original-nowhere:" + window(p),
 				Observed: fmt.Sprintf("%s: %s; %s.bak: %s", p, obs, p, bakObs),
 				Expected: fmt.Sprintf("original (%d B) at %s or %s.bak, or complete output (%d B) at %s", len(b.Data), p, p, len(inplaceOut[p]), p)})
 		default:
 			// only read, or unrelated: bit-identical
 			if !ok {
-				fs = append(fs, Finding{Signature: "crash:read-only-file-removed:" + where, Observed: p + " is gone", Expected: "unchanged"})
+				fs = append(fs, Finding{Signature: "crash:read-only-file-removed:" + window(p), Observed: p + " is gone", Expected: "unchanged"})
 			} else if a.Kind != b.Kind || a.Target != b.Target || !bytes.Equal(a.Data, b.Data) {
-				fs = append(fs, Finding{Signature: "crash:read-only-file-modified:" + where,
+				fs = append(fs, Finding{Signature: "crash:read-only-file-modified:" + window(p),
 					Observed: fmt.Sprintf("%s: %s %d B %s", p, a.Kind, len(a.Data), clip(a.Data, 60)), Expected: fmt.Sprintf("%s %d B unchanged", b.Kind, len(b.Data))})
 			}
 		}
@@ -152,8 +174,7 @@ func killRun(bin, work string, c Case, kp killPoint, env ...string) killResult {
 		kr.err = err
 		return kr
 	}
-	where := "after-" + kr.lastOp + "-before-" + kr.nextOp
-	kr.findings = crashCheck(exp, before, after, where)
+	kr.findings = crashCheck(exp, before, after, ops)
 	if exp.Known != "" {
 		for i := range kr.findings {
 			kr.findings[i].Signature = exp.Known + ":" + kr.findings[i].Signature
@@ -290,6 +311,7 @@ func runCrash(bin, work string, res *vh.Result) {
 	boundaries := map[int]map[int]bool{}
 	seenSig := map[string]bool{}
 	tried := map[string]int{}
+	bad := map[int][]killResult{}
 	absorb := func(jobsList []job, env ...string) {
 		results := make([]killResult, len(jobsList))
 		parallel(len(jobsList), func(j int) { results[j] = killRun(bin, work, cases[jobsList[j].ci].c, jobsList[j].kp, env...) })
@@ -326,22 +348,7 @@ func runCrash(bin, work string, res *vh.Result) {
 				continue
 			}
 			res.Hist("outcomes", "violation")
-			for _, f := range kr.findings {
-				if seenSig[f.Signature+fmt.Sprint(ci)] || (seenSig[f.Signature] && len(res.Violations) > 40) {
-					continue
-				}
-				seenSig[f.Signature] = true
-				seenSig[f.Signature+fmt.Sprint(ci)] = true
-				wc := cases[ci].c
-				wc.Mode = "crash"
-				wc.Kill, wc.KillOn = kr.kp.K, kr.kp.Syscall
-				v := vh.Violation{Kind: "oracle", Signature: f.Signature, Input: caseInput(wc) + fmt.Sprintf("\nkill: %s when=%d", kr.kp.Syscall, kr.kp.K), Observed: f.Observed, Expected: f.Expected,
-					Detail: "operations before the kill: " + strings.Join(kr.opsText, "; "), Case: ci, Options: map[string]string{"witness": caseJSON(wc)}}
-				if trs[ci].exp.Known != "" {
-					v.Options["known_id"] = trs[ci].exp.Known
-				}
-				res.Violations = append(res.Violations, v)
-			}
+			bad[ci] = append(bad[ci], kr)
 		}
 	}
 	absorb(jobsList)
@@ -400,6 +407,36 @@ func runCrash(bin, work string, res *vh.Result) {
 		res.Hist("kill_points", "retry-rounds")
 		// GOMAXPROCS=1 keeps the goroutine on one thread almost always; same program, same call sequence
 		absorb(retry, "GOMAXPROCS=1")
+	}
+	// one report per case: the earliest kill point that shows the damage names the root cause,
+	// later kill points of the same run merely still see it
+	var badCases []int
+	for ci := range bad {
+		badCases = append(badCases, ci)
+	}
+	sort.Ints(badCases)
+	for _, ci := range badCases {
+		krs := bad[ci]
+		sort.SliceStable(krs, func(i, j int) bool { return krs[i].done < krs[j].done })
+		kr := krs[0]
+		emitted := map[string]bool{}
+		for _, f := range kr.findings {
+			if emitted[f.Signature] || (seenSig[f.Signature] && len(res.Violations) > 60) {
+				continue
+			}
+			emitted[f.Signature] = true
+			seenSig[f.Signature] = true
+			wc := cases[ci].c
+			wc.Mode = "crash"
+			wc.Kill, wc.KillOn = kr.kp.K, kr.kp.Syscall
+			v := vh.Violation{Kind: "oracle", Signature: f.Signature, Input: caseInput(wc) + fmt.Sprintf("\nkill: %s when=%d", kr.kp.Syscall, kr.kp.K), Observed: f.Observed, Expected: f.Expected,
+				Detail: fmt.Sprintf("operations before the kill: %s (%d kill points of this case show a violation; this is the earliest)", strings.Join(kr.opsText, "; "), len(krs)),
+				Case: ci, Options: map[string]string{"witness": caseJSON(wc)}}
+			if trs[ci].exp.Known != "" {
+				v.Options["known_id"] = trs[ci].exp.Known
+			}
+			res.Violations = append(res.Violations, v)
+		}
 	}
 	// coverage of operation boundaries per case (the baseline trace says how many there are):
 	// boundary d = "killed on entry to the operation with index d", d in [0, len(ops))
